@@ -23,6 +23,8 @@ REPLIES = [
     ("403", b"HTTP/1.1 403 Forbidden\r\nContent-Length: 0\r\n\r\n", False),
     ("407", b"HTTP/1.1 407 Proxy Authentication Required\r\nProxy-Authenticate: Basic realm=\"x\"\r\n\r\n", False),
     ("502", b"HTTP/1.1 502 Bad Gateway\r\n\r\n", False),
+    ("407_format_chars", b"HTTP/1.1 407 {0} %s {x!r}\r\nProxy-Authenticate: {} %d\r\n\r\n", False),
+    ("200_format_chars", b"HTTP/1.1 200 {0} %s {x!r}\r\nVia: {} %d\r\n\r\n", True),
     ("2000", b"HTTP/1.1 2000 Weird\r\n\r\n", False),
     ("20", b"HTTP/1.1 20 Short\r\n\r\n", False),
     ("200OK_glued", b"HTTP/1.1 200OK\r\n\r\n", False),
